@@ -10,7 +10,16 @@ ROOT = os.path.dirname(os.path.dirname(os.path.abspath(__file__)))
 def load_corpus(prop):
     out = []
     for p in sorted(glob.glob(os.path.join(ROOT, 'corpus', prop, '*.txt'))):
-        out.append([l.rstrip('\n') for l in open(p)])
+        cur = None
+        for l in open(p):
+            l = l.rstrip('\n')
+            if not l.strip() or l.strip().startswith('#'):
+                continue
+            if l.split()[0] == 'cfg':
+                cur = []
+                out.append(cur)
+            if cur is not None:
+                cur.append(l)
     return out
 
 
@@ -391,6 +400,10 @@ def trace_violation(evs):
                 hi[name] = 0
             elif kind == 'O':
                 seen_blob.add(name)
+                # reopened in append mode: the OS places every write at the end of the file, and the file may have
+                # been altered by the environment between the sessions (injected damage)
+                created.pop(name, None)
+                hi.pop(name, None)
             elif kind == 'W':
                 off, ln = int(f[1]), int(f[2])
                 if name in created:
@@ -431,6 +444,10 @@ def oracle_c12(res, i):
     if c == 'trace':
         v = trace_violation(_events_upto(res, i))
         return 'MISMATCH ' + v if v else None
+    if c == 'dirty' and out.startswith('dirty ') and out[6:].isdigit():
+        limit = int(_cfg(res, 'dirty', '33554432'))
+        if int(out[6:]) > limit:
+            return f'MISMATCH un-synced bytes of the active blob {out[6:]} exceed the limit {limit} at quiescence'
     if c == 'fstates' and out.startswith('#fstates'):
         limit = int(_cfg(res, 'dirty', '33554432'))
         cur = _parse_f(out)
@@ -492,7 +509,7 @@ def sync_features(lines):
 PROPS['C12'] = dict(
     gen=lambda rng, tier: gen.sync_scenario(rng, size=tier),
     p_cmds={'trace', 'fstates', 'fsync', 'close', 'open', 'dirty'},
-    impl_only_cmds={'trace', 'fstates', 'dirty'},   # judged by the trace predicates until the L6 model prints them
+    impl_only_cmds={'fstates'}, impl_only_if_ct={'trace'},   # ct: markers into several closed blobs are issued concurrently
     oracle_cmds={'states'}, py_oracle=oracle_c12,
     count={'quick': 80, 'thorough': 1200}, timeout=1800,
     nontrivial=lambda lines: sum(1 for l in lines if l.split()[0] in ('fsync', 'close_active', 'settle')) >= 1 and
@@ -511,7 +528,7 @@ PROPS['C12'] = dict(
 PROPS['C07'] = dict(
     gen=lambda rng, tier: gen.harm_scenario(rng, size=tier),
     p_cmds={'snap', 'trace', 'restart', 'open', 'r', 'c', 'ram', 'counts'},
-    impl_only_cmds={'trace'}, tolerate_err_after_damage=True,
+    impl_only_if_ct={'trace'}, tolerate_err_after_damage=True, no_oracle_after_nomodel=True,
     oracle_cmds={'r', 'c', 'ram', 'states'}, py_oracle=oracle_c07,
     count={'quick': 80, 'thorough': 1200}, timeout=1800,
     nontrivial=lambda lines: any('bdmg=' in l for l in lines) or sum(1 for l in lines if l.startswith('restart')) >= 2,
